@@ -254,7 +254,7 @@ func collectSites(f *File, from int) []tokSite {
 
 var c13Auto = AutoCfg{"checkitem": {VarName: "VAR_RESULT"}, "specialvar": {ArgPos: new(int)}}
 
-var c13ValWords = []string{"true", "false", "TRUE", "1", "2", "7", "0x10", "-3", "FLAG_BASE", "VAR_BASE", "ITEM_X", "ITEM_NONE", "step_end", "+", "-", "*", "|", "&"}
+var c13ValWords = []string{"010", "007", "-0", "true", "false", "TRUE", "1", "2", "7", "0x10", "-3", "FLAG_BASE", "VAR_BASE", "ITEM_X", "ITEM_NONE", "step_end", "+", "-", "*", "|", "&"}
 
 type cdef struct {
 	name   string
@@ -337,6 +337,11 @@ func constify(t *rapid.T, f *File, auto AutoCfg) []cdef {
 				continue
 			}
 			(*s.toks)[s.idx] = d.name
+			if lc := strings.ToLower(d.name); lc != d.name && rapid.IntRange(0, 7).Draw(t, "othercase") == 0 {
+				// an identifier that differs from the constant's name only in letter case is another identifier
+				(*s.toks)[s.idx] = lc
+				continue
+			}
 			if rapid.IntRange(0, 3).Draw(t, "amongothers") == 0 {
 				// the constant is one token among several: BASE + K
 				nt := append([]string{}, (*s.toks)[:s.idx]...)
